@@ -47,15 +47,18 @@ def role_of(path):
 META_ID = 11
 # the --warc-file prefix: any legal file name.  (The model identifies files by number; the name class is a parameter
 # of the scenario only.)  'class': characters that glob takes for a character class; 'blank': the CDX delimiter
-PREFIX = {'plain': 'a', 'class': 'a[1]', 'blank': 'a b', 'star': 'a*'}
+#             'slash': the prefix names a directory (archive ".warc.gz" inside it: a dot file); 'bytes': not UTF-8
+PREFIX = {'plain': 'a', 'class': 'a[1]', 'blank': 'a b', 'star': 'a*', 'slash': 'sub/', 'bytes': 'a\udce9'}
 
 
 def file_id(name):
     """Model file id of an archive name: a.warc[.gz] -> 0, a-0000N -> N + 1, a-meta -> 11."""
     b = os.path.basename(str(name))
-    for pf in ('a[1]', 'a b', 'a*'):
+    for pf in ('a[1]', 'a b', 'a*', 'a\udce9'):
         if b.startswith(pf):
             b = 'a' + b[len(pf):]
+    if b.startswith(('.warc', '-0', '-meta')) and os.path.basename(os.path.dirname(str(name))) == 'sub':
+        b = 'a' + b          # prefix "sub/": the files are sub/.warc.gz, sub/-00000.warc.gz, ...
     if b.endswith('-wpullinc'):
         b = b[:-len('-wpullinc')]
     stem = b.split('.warc')[0]
@@ -398,6 +401,8 @@ class Exec(object):
         for d in (self.wdir, self.tdir, self.mdir):
             os.makedirs(d, exist_ok=True)
         self.prefix = os.path.join(self.wdir, PREFIX[self.scn.get('params', {}).get('pfx', 'plain')])
+        if self.prefix.endswith('/'):
+            os.makedirs(self.prefix, exist_ok=True)
         self.fault_at = fault_at
         self.crash_at = crash_at
         self.keep_raw_at = set(keep_raw_at)
@@ -434,13 +439,17 @@ class Exec(object):
         move_to directory keeps its identity, its journal - which never moves - stays attached), plus the CDX file."""
         out = {}
         journals = {}
-        for tag, d in (('moved/', self.mdir), ('', self.wdir)):
+        for tag, d in (('moved/', self.mdir), ('', self.wdir), ('sub/', os.path.join(self.wdir, 'sub'))):
             try:
                 names = sorted(os.listdir(d))
             except FileNotFoundError:
                 continue
             for nm in names:
                 p = os.path.join(d, nm)
+                if os.path.isdir(p):
+                    continue
+                if tag == 'sub/':
+                    nm = 'sub/' + nm       # (prefix "sub/": the archive is the dot file sub/.warc[.gz])
                 role = role_of(nm)
                 if role in ('a', 'c'):
                     with _builtin_open(p, 'rb') as fh:
